@@ -1,7 +1,7 @@
 (* C03 - codon-level mutators act on exactly the in-frame codons inside the region.
    Only statements, closed by `exact`, and their assumptions. *)
 From VV Require Import Model.Base Model.Pattern Model.Seq Model.CodonTable Model.Transcript Model.Mutators
-  Spec.PatternSpec Spec.CodonSpec Spec.RegionSpec Proofs.CodonTableProofs Proofs.CodonProofs Proofs.RegionProofs Generated.DefaultTable Generated.KernelsFrame Proofs.KernelFrameEquiv.
+  Spec.PatternSpec Spec.CodonSpec Spec.RegionSpec Proofs.CodonTableProofs Proofs.CodonProofs Proofs.RegionProofs Generated.DefaultTable Generated.KernelsFrame Proofs.KernelFrameEquiv Generated.KernelsLift Proofs.KernelLiftEquiv.
 
 (* the codon windows produced for a region cut by Transcript._get_cds_seq are exactly the triplets of the annotated
    reading frame (strand-aware, from the GTF frame of the exon) whose three bases lie inside the region: every frame,
@@ -131,6 +131,13 @@ Theorem C03_frame_arithmetic_matches_source :
 Proof. exact (conj k_codon_offset_complement_eq (conj k_cds_ext_3_length_eq (conj k_exon_cds_prefix_length_eq (conj k_exon_cds_suffix_length_eq
   (conj k_exon_next_exon_frame_eq k_get_range_cds_exts_eq))))). Qed.
 
+(* the clamping of a codon to its exon (UIntRange.overlaps / intersect, used by Exon.get_codon and the transcript walk), translated
+   from uint_range.py on every run, is the model's *)
+Theorem C03_range_clamp_matches_source : forall a b,
+  k_range_overlaps a b = Ok (overlaps a b) /\
+  (range_valid a = true -> range_valid b = true -> k_range_intersect a b = Ok (intersect a b)).
+Proof. intros a b. exact (conj (k_range_overlaps_eq a b) (k_range_intersect_eq a b)). Qed.
+
 Print Assumptions C03_codon_windows_exact.
 Print Assumptions C03_inframe_exact.
 Print Assumptions C03_top_replacement_exact.
@@ -144,3 +151,4 @@ Print Assumptions C03_codon_rows_in_region.
 Print Assumptions C03_minus_strand_orientation.
 Print Assumptions C03_noncoding_refused.
 Print Assumptions C03_frame_arithmetic_matches_source.
+Print Assumptions C03_range_clamp_matches_source.
